@@ -194,6 +194,11 @@ def run(ck):
     ck.hist("exhaustive_sequences_depth_%d" % depth, len(batch))
     ndiff += check_cases(ck, "exhaustive small scope (1 broker, 2 requests, depth %d)" % depth, batch, describe)
 
+    # --- the REAL public entry points (produce/fetch/offset*, the group code's JoinGroup with its 35 s minimum, heartbeats,
+    #     metadata / coordinator lookups, _load_topic_partitions) against a scripted honest broker: monitors only
+    from props import clientreq_public as PUB
+    PUB.run_public(ck, WHICH, 60 if not thorough else 1500)
+
     if thorough:
         ck.coqchk(["AV.Props.C11"])
     ck.cov["rule"] = ("corpus of hand-written histories + seeded state-aware generator (random.Random(VERIF_SEED)) over the event alphabet of "
@@ -217,6 +222,9 @@ def run(ck):
 
 
 def replay(rp):
+    if rp.get("public"):
+        from props import clientreq_public as PUB
+        return PUB.replay_public(rp, WHICH)
     cfg = rp["cfg"]
     evs = L.unjson(rp["events"])
     done, recs = L.run_impl(cfg, evs)
